@@ -144,6 +144,30 @@ func main() {
 		fmt.Printf("scan: %s\npaste: %s\n", r.Scan, r.Paste)
 		res := RunProject(SingleFile(content), false)
 		fmt.Println(res.Verdict())
+	case "conc":
+		b, _ := os.ReadFile(os.Args[2])
+		other, _ := os.ReadFile(os.Args[3])
+		first := RunProject(SingleFile(b), false)
+		for round := 0; round < 200; round++ {
+			ch := make(chan RunResult, 8)
+			for k := 0; k < 8; k++ {
+				go func(k int) {
+					if k%2 == 1 {
+						RunProject(SingleFile(other), false)
+					}
+					ch <- RunProject(SingleFile(b), false)
+				}(k)
+			}
+			for k := 0; k < 8; k++ {
+				r := <-ch
+				if r.Verdict() != first.Verdict() || string(r.JSON) != string(first.JSON) {
+					fmt.Println("DIFF in round", round, r.Verdict())
+					fmt.Println(firstDiff(first.JSON, r.JSON))
+					os.Exit(1)
+				}
+			}
+		}
+		fmt.Println("no difference")
 	case "lex":
 		b, _ := os.ReadFile(os.Args[2])
 		lexs, tail := ScanAll(b)
